@@ -112,3 +112,20 @@ UNITS.append(dict(name='C17.send', props=['C17'], kind='P', route='stub', entry=
                 dict(name='_dbus_connection_send_unlocked_no_update, _get_is_connected_unlocked, dispatch-status pair', file=CONN, status='replaced', note='lock typestate; send requires the serial to be set'),
                 dict(name='dbus_message_get_serial/set_serial/new_error, _dbus_timeout_new, allocators', file='dbus', status='stub', note='ghost serial of the message; each allocation may fail')] + F_MODEL,
      assumptions=[SEQ, UNW, 'client_serial != 0 (invariant)', 'no other outstanding call uses the serial being assigned (distinctness until wrap: C17.serial)']))
+
+UNITS.append(dict(name='C17.queue_received', props=['C17'], kind='P', route='stub', entry='harness',
+     tus=[dict(file=CONN, include_as='VERIF_TU'), dict(file=PC, include_as='VERIF_TU_PC')], harness='harness/c17_queue.c', extra_sources=['harness/c17_pc.c'],
+     replace_calls=RC_CONN, unwind=6, timeout=300, expect_s=10,
+     must_have=['post pending calls are looked up under the message', 'post exactly the answered call', 'post the link is appended'],
+     functions=[dict(name='_dbus_connection_queue_received_message_link', file=CONN, status='enforced', contract='appended once, n_incoming+1; lookup key is the REPLY serial (none for 0, never the own serial); only the answered call loses its timeout; nothing detached/completed/notified'),
+                dict(name='_dbus_pending_call_is_timeout_added_unlocked/_get_timeout_unlocked/_set_timeout_added_unlocked', file=PC, status='inlined', note='real code'),
+                dict(name='dbus_message_get_serial', file='dbus/dbus-message.c', status='stub', note='ghost own serial, different from the ghost reply serial'),
+                dict(name='_dbus_transport_peek_is_authenticated, _dbus_list_append_link', file='dbus', status='stub', note='precondition TRUE; append counted')] + F_MODEL,
+     assumptions=[SEQ, UNW, 'connection lock held and transport authenticated (precondition)', 'two outstanding calls with distinct non-zero serials']))
+UNITS.append(dict(name='C17.pcnew', props=['C17'], kind='P', route='stub', entry='harness',
+     tus=[dict(file=PC, include_as='VERIF_TU_PC')], harness='harness/c17_pcnew.c', timeout=300, expect_s=5,
+     must_have=['post1 DBUS_TIMEOUT_INFINITE creates no timeout', 'post4 any other value is used as the interval EXACTLY', 'post3 -1 selects the default'],
+     functions=[dict(name='_dbus_pending_call_new_unlocked', file=PC, status='enforced', contract='INFINITE => no timeout; -1 => default interval; other >= 0 => exactly that interval, given handler, call as data; fields initialised; OOM => NULL, nothing leaked'),
+                dict(name='dbus_pending_call_allocate_data_slot/free_data_slot', file=PC, status='inlined', note='real wrappers'),
+                dict(name='_dbus_timeout_new, _dbus_data_slot_allocator_alloc/_free, dbus_malloc0/dbus_free, _dbus_connection_ref_unlocked', file='dbus', status='stub', note='record interval/handler/data; each allocation may fail; counted')],
+     assumptions=[SEQ, 'timeout_milliseconds >= 0 or == -1 (the function\'s entry assertion, precondition)']))
